@@ -1532,8 +1532,9 @@ def mon_C16(rng, budget, tier):
         pk = [call_predict(op, kind, st_k, nums_k) for op in ("pwin", "pdraw", "prank")]
         if not _pred_close(pbase, pk):
             mon.fail("predictions under rescaling", case, "%s / %s" % (pbase, pk))
-        # ---- shift (equal team sizes)
-        if equal_sizes:
+        # ---- shift (equal team sizes); the gamma callback must itself not depend on the origin (C16_shift_* carry
+        # that premise): "gm" reads the team mean, so it is left out here
+        if equal_sizes and st["gamma"] != "gm":
             lo = min(mu for t in nums for mu, _ in t)
             hi = max(mu for t in nums for mu, _ in t)
             room_up, room_dn = 20 * st["beta"] - hi, -20 * st["beta"] - lo
@@ -1909,10 +1910,13 @@ def mon_C20(rng, budget, tier):
         r4 = m.rating(sigma=sg)
         r5 = m.rating()
         for lab, r, wm, ws, wn in (("rating(mu,sigma,name)", r1, mu, sg, nm), ("create_rating", r2, mu, sg, nm),
-                                   ("rating(mu=)", r3, mu, st["sigma"], None), ("rating(sigma=)", r4, st["mu"], sg, None),
-                                   ("rating()", r5, st["mu"], st["sigma"], None)):
-            if not (r.mu == wm and type(r.mu) is type(wm) and r.sigma == ws and type(r.sigma) is type(ws) and r.name == wn
-                    and type(r.name) is type(wn)):
+                                   ("rating(mu=)", r3, mu, float(st["sigma"]), None), ("rating(sigma=)", r4, float(st["mu"]), sg, None),
+                                   ("rating()", r5, float(st["mu"]), float(st["sigma"]), None)):     # the constructor float()s its mu and sigma
+            # a given value is kept as given (value and type); a default is the model's own value (int or float as the
+            # model holds it: the constructor float()s, a later assignment does not)
+            giv_m, giv_s = lab in ("rating(mu,sigma,name)", "create_rating", "rating(mu=)"), lab in ("rating(mu,sigma,name)", "create_rating", "rating(sigma=)")
+            if not (r.mu == wm and (type(r.mu) is type(wm) or not giv_m) and r.sigma == ws and (type(r.sigma) is type(ws) or not giv_s)
+                    and r.name == wn and type(r.name) is type(wn)):
                 mon.fail("constructed rating holds exactly the given values", case, "%s -> mu=%r sigma=%r name=%r, wanted %r %r %r" % (lab, r.mu, r.sigma, r.name, wm, ws, wn))
         ids = [r.id for r in (r1, r2, r3, r4, r5)]
         if len(set(ids)) != 5 or any(not isinstance(x, str) or not x for x in ids):
